@@ -72,6 +72,8 @@ class Sched:
         self.executors = []
         self.env = None
         self.trace = []  # names of the participants in the order they ran (compressed)
+        self.vclock = 0.0   # virtual wall clock for plain threads (see vsleep)
+        self.sleepers = {}  # tid -> wake time
 
     # -- participants
     def register_main(self, name='loop'):
@@ -152,6 +154,13 @@ class Sched:
         def tmo(t):
             return t.timeout() if callable(t.timeout) else t.timeout
 
+        if not en and self.sleepers:
+            # nobody can move: virtual time jumps to the earliest wake-up
+            self.vclock = max(self.vclock, min(self.sleepers.values()))
+            en = [t for t in self.threads if not t.done and (t.pred is None or t.pred())]
+            en.sort(key=lambda t: (t is not me, t.tid))
+            if en:
+                return en
         if not en:
             # let time pass: wake timeout-capable waiters, longest waiting first (a
             # poller that just went back to sleep must not starve the other pollers)
@@ -212,6 +221,16 @@ class Sched:
                 if me.tid == 0 and self.failed is not None:
                     raise self.failed
                 raise Abort()
+
+    def vsleep(self, seconds, kind='sleep'):
+        """Block the calling participant for `seconds` of virtual time."""
+        me = self.me()
+        wake = self.vclock + max(0.0, seconds)
+        self.sleepers[me.tid] = wake
+        try:
+            self.block_until(lambda: self.vclock >= wake, kind)
+        finally:
+            self.sleepers.pop(me.tid, None)
 
     def point(self, kind='p'):
         me = self.me()
